@@ -1,26 +1,24 @@
 #!/bin/bash
 # development aid: which surviving mutants does no check report?  usage: mutation_stage2.sh <mutants dir> <jobs>
-# uses a frozen copy of the checker binary so that the checker sources can be edited meanwhile.
+# uses a frozen copy of the checker binary (its -sweep mode loads the tree once and stops at the first
+# failing property) so that the checker sources can be edited meanwhile.
 export GOFLAGS=-mod=mod GOPROXY=off GOSUMDB=off GOTOOLCHAIN=local CGO_ENABLED=0; unset GOWORK
 M=$1; J=${2:-8}
 /verif/scripts/check.sh C01 quick >/dev/null 2>&1; cp /verif/bin/gvcheck $M/gvcheck
 cut -d' ' -f1 $M/survivors.txt > $M/s.txt
 split -n l/$J $M/s.txt $M/spart.
-# order: properties with the widest nets first
-ORDER="C12 C11 C10 C02 C03 C06 C14 C09 C01 C05 C13 C18 C07 C16 C04 C08 C15 C17 C19 C20"
+ORDER="C12,C11,C10,C02,C03,C06,C14,C09,C01,C05,C13,C18,C07,C16,C04,C08,C15,C17,C19,C20"
 for part in $M/spart.*; do
   (
     wt=$M/wt2.$(basename $part); git -C /repo worktree add -q --detach $wt HEAD
     for id in $(cat $part); do
       d=$M/$id; rel=$(cut -f1 $d/desc); cp $d/file $wt/$rel
-      hit=""
-      for p in $ORDER; do
-        o=$M/out.$id; mkdir -p $o
-        res=$($M/gvcheck -prop $p -tier quick -repo $wt -verif /verif -out $o 2>&1); rc=$?
-        if [ $rc -ne 0 ]; then hit="$p[$(echo "$res" | grep -E "^(VIOLATED|UNDECIDED)" | sed -E 's/^(VIOLATED|UNDECIDED) rule=([^ ]+).*/\2/' | sort -u | tr '\n' ',' | sed 's/,$//')]"; break; fi
-      done
-      rm -rf $M/out.$id
-      echo "$id ${hit:-UNSEEN} $(cat $d/desc)"
+      o=$M/out.$id; mkdir -p $o
+      res=$($M/gvcheck -sweep $ORDER -tier quick -repo $wt -verif /verif -out $o 2>&1)
+      hit=$(echo "$res" | grep -E "^FIRST-FAIL" | awk '{print $2}')
+      rules=$(echo "$res" | grep -E "^(VIOLATED|UNDECIDED)" | sed -E 's/^(VIOLATED|UNDECIDED) rule=([^ ]+).*/\2/' | sort -u | tr '\n' ',' | sed 's/,$//')
+      rm -rf $o
+      if [ -n "$hit" ]; then echo "$id $hit[$rules] $(cat $d/desc)"; else echo "$id UNSEEN $(cat $d/desc)"; fi
       git -C $wt checkout -q -- .
     done
     git -C /repo worktree remove --force $wt
